@@ -10,7 +10,7 @@ use serde_json::{json, Value};
 pub const DEF: PropDef = PropDef {
     id: "C03",
     level: "exploration",
-    rule: "complete enumeration of operator x operand cells over a 61-value universe U (every kind, every boundary the coercions inspect): 13 binary operators x U^2, unary x U, list operands x U_small^3, side-effecting operands (roll) for short-circuit and left-to-right order, compound assignment x U^2, build/knock x U x 1..3, every cell pushed through 5 statement positions, (thorough) depth-2 nestings U^3 x 13^2, plus the same cells evaluated directly on rrss::exec::val::Val; expected value from an independent reference table; non-trivial = the reference defines the outcome and the program was executed and compared; distinct = distinct program text",
+    rule: "complete enumeration of operator x operand cells over a 65-value universe U (every kind, every boundary the coercions inspect): 13 binary operators x U^2, unary x U, list operands x U_small^3, side-effecting operands (roll) for short-circuit and left-to-right order, compound assignment x U^2, build/knock x U x 1..3, every cell pushed through 5 statement positions, every operator applied to aliased operands (same variable, copies by assignment / argument passing / storing into an array) x U, (thorough) depth-2 nestings U^3 x 13^2, plus the same cells evaluated directly on rrss::exec::val::Val; expected value from an independent reference table; non-trivial = the reference defines the outcome and the program was executed and compared; distinct = distinct program text",
     assumptions: &[
         "reference coercion tables transcribed from the property statement and anchored on the repository's own val unit tests (checked by ./check selftest)",
         "cells the properties leave open (spelling of non-finite numbers, padded numerals, non-integer repeat counts ...) are counted as skipped.<reason> and not judged",
@@ -173,6 +173,20 @@ fn build(tier: Tier) -> Box<dyn Check> {
     }
     // 9. direct Val-level cells (marker text: handled specially)
     let val_ops: Space<&'static str> = Space::of(vec!["plus", "subtract", "multiply", "divide", "equals", "compare"]);
+    // aliased operands: both sides are the same variable, an unmodified copy, a copy passed through a
+    // function, a copy stored in and read back from an array (storage an implementation may share)
+    let alias_forms: Space<&'static str> = Space::of(vec![
+        "say x # x\n",
+        "put x into y\nsay x # y\nsay y # x\n",
+        "put x into y\nput y into z\nsay z # x\n",
+        "same takes k\ngive back k\n\nput same taking x into y\nsay x # y\nsay y # x\n",
+        "both takes k, j\ngive back k # j\n\nsay both taking x, x\n",
+        "rock w with x\nsay w at 0 # x\nsay x # w at 0\nrock v with x\nsay w # v\n",
+        "put x into y\nrock y with 1\nsay x # y\nroll y\n",
+        "put x into it\nsay it # x\n",
+    ]);
+    let cells = ops.product(&u, |o, a| (o, a));
+    fams.push(("aliased-operands".into(), alias_forms.product(&cells, |f, (o, a)| format!("{}{}", ctor(a, "x"), f.replace('#', BINOPS[o].1)))));
     fams.push(("val-api".into(), val_ops.product(&pairs, |o, (a, b)| format!("VAL {} {} {}", o, a, b))));
     fams.push(("thresholds".into(), Space::of(super::scale::programs())));
     Box::new(C03 { fams })
